@@ -99,7 +99,13 @@ func WriteFile(fromFile io.Reader, to string, mode os.FileMode) error {
 			return err
 		}
 	}
-	tempFile, err := os.CreateTemp(dir, file)
+	// The temporary name gets a random suffix appended, so keep some room for it
+	// below the usual 255 byte limit on file names.
+	pattern := file
+	if len(pattern) > 200 {
+		pattern = pattern[:200]
+	}
+	tempFile, err := os.CreateTemp(dir, pattern)
 	if err != nil {
 		return err
 	}
